@@ -18,7 +18,7 @@ def c07(tier):
         if mm['kind'] in ('stack', 'twin', 'accumulation', 'abort'):
             return True
         # a wrong value/failure counts here only after an earlier failure in the same session
-        if mm['kind'] == 'conformance':
+        if mm['kind'] == 'conformance' and sess.get('runs'):
             obs = sess['runs'][0]['obs']
             return any(o.get('r') != 'ok' for o in obs[:mm['form'] - 1])
         return False
@@ -29,6 +29,8 @@ def c07(tier):
         probes = 0
         for S in sessions.values():
             for s in S.values():
+                if not s.get('runs'):
+                    continue
                 obs = s['runs'][0]['obs']
                 fails += sum(1 for o in obs if o.get('r') == 'err')
                 probes += sum(1 for o in obs if 'twin' in o)
